@@ -198,6 +198,20 @@ def scan (rs : List Rule) (imports : List String) (fl : Flags) (script : List Re
     | (t, .exit rc) => (l.trace ++ t, rc)
     | (t, .done _) => (l.trace ++ t ++ [.scanFinished], .success)   -- answer to SCAN_FINISHED ignored
 
+/-! ### `filesize` (scanner.c, after the block loop) -/
+
+/-- `scanner->file_size = iterator->file_size != NULL ? iterator->file_size(iterator) : YR_UNDEFINED`,
+    assigned in EVERY scan: `yr_scanner_scan_mem` installs a size function, a caller's block iterator
+    and the process iterator may come without one. -/
+def scanFileSize (hasSizeFn : Bool) (size : Nat) : Option Nat := if hasSizeFn then some size else none
+
+/-- `filesize > n` (`gt`) / `filesize < n` as a rule condition: an undefined operand makes the comparison
+    undefined, which `and` / `or` / `OP_MATCH_RULE` read as false -/
+def fileSizeAtom (fs : Option Nat) (gt : Bool) (n : Nat) : Bool :=
+  match fs with
+  | none => false
+  | some s => if gt then decide (n < s) else decide (s < n)
+
 /-! ### the matching phase and `CALLBACK_MSG_TOO_MANY_MATCHES` (scan.c) -/
 
 /-- conditions as written: a string is referred to by its index `YR_STRING.idx` -/
